@@ -84,6 +84,12 @@ fn cases_attacks(_rng: &mut Rng, sink: &mut dyn FnMut(J) -> bool) {
     for who in ["issuer", "other_holder_same_family", "other_holder_other_family", "hs_with_public_key"] {
         attacks.push(json!({"kind": "resigned", "by": who}));
     }
+    // a disclosure ADDED after the KB-JWT was made that is not reachable from the revealed claims
+    for what in ["child_of_withheld", "grandchild_of_withheld", "forged3", "forged2", "other_credential"] {
+        for position in ["end", "front", "middle"] {
+            attacks.push(json!({"kind": "add_orphan", "what": what, "position": position}));
+        }
+    }
     // a conformant KB-JWT built independently of the library's holder (typ, aud, nonce, iat, sd_hash)
     attacks.push(json!({"kind": "independent_kb"}));
     attacks.push(json!({"kind": "independent_kb", "select": "nothing"}));
@@ -120,6 +126,16 @@ fn cases_attacks(_rng: &mut Rng, sink: &mut dyn FnMut(J) -> bool) {
         for a in &attacks {
             if !sink(case_of(&cfg, a.clone(), AUD, NONCE)) {
                 return;
+            }
+        }
+        // empty strings as expected aud / nonce
+        for (made_aud, made_nonce) in [(AUD, NONCE), ("", ""), (AUD, ""), ("", NONCE)] {
+            for (e_aud, e_nonce) in [(Some(""), Some("")), (Some(AUD), Some("")), (Some(""), Some(NONCE)), (Some(AUD), Some(NONCE)), (Some(""), None), (None, Some(""))] {
+                for kbk in ["honest", "removed", "empty", "garbage"] {
+                    if !sink(case_of(&cfg, json!({"kind": "empty_expect", "expect_aud": e_aud, "expect_nonce": e_nonce, "kb": kbk}), made_aud, made_nonce)) {
+                        return;
+                    }
+                }
             }
         }
         // honest presentations for other (aud, nonce) strings
@@ -387,6 +403,59 @@ pub fn check(case: &J) -> Verdict {
                 }
             };
             expect_reject(verify(&text, Some(&kb.aud), Some(&kb.nonce)), &format!("a KB-JWT replayed ({how})"))
+        }
+        "add_orphan" => {
+            // key-bound presentation that withholds `addr` (a hidden object with hidden members)
+            let sel = json!({"vis": true, "role": true, "tags": [true, true]}).as_object().unwrap().clone();
+            let pres2 = match sut::present(&mut h, &sel, Some(&kb)) {
+                Out::Ok(p) => p,
+                o => return fail(format!("create_presentation -> {}", o.brief()), "Ok"),
+            };
+            let Some(p2) = Parts::parse(&pres2, &cfg.format) else { return Verdict::Trivial };
+            let Some(issued_parts) = Parts::parse(&issued, &cfg.format) else { return Verdict::Trivial };
+            let Some(payload) = issued_parts.payload() else { return Verdict::Trivial };
+            let dpaths = crate::oracle::disclosure_paths(&cfg.claims, &payload, &issued_parts.disclosures);
+            let by_path = |want: &str| issued_parts.disclosures.iter().find(|d| dpaths.get(*d).map(|p| crate::oracle::path_str(p)) == Some(want.to_string())).cloned();
+            let added = match attack["what"].as_str().unwrap_or("") {
+                "child_of_withheld" => by_path("$.addr.city"),
+                "grandchild_of_withheld" => by_path("$.addr.zip"),
+                "forged3" => Some(crate::util::make_disclosure(&json!(["c2FsdHNhbHRzYWx0c2FsdA", "admin", true]))),
+                "forged2" => Some(crate::util::make_disclosure(&json!(["c2FsdHNhbHRzYWx0c2FsdA", "x"]))),
+                _ => cfg.issue_parts().ok().and_then(|(_, q)| q.disclosures.first().cloned()),
+            };
+            // only meaningful when the strategy hides addr's members (else there is no such disclosure)
+            let Some(added) = added else { return Verdict::Trivial };
+            if p2.disclosures.contains(&added) {
+                return Verdict::Trivial;
+            }
+            let mut ds = p2.disclosures.clone();
+            match attack["position"].as_str().unwrap_or("end") {
+                "front" => ds.insert(0, added),
+                "middle" => ds.insert(ds.len() / 2, added),
+                _ => ds.push(added),
+            }
+            let text = Parts { jwt: p2.jwt.clone(), disclosures: ds, kb: p2.kb.clone() }.serialize(&cfg.format);
+            expect_reject(verify(&text, Some(&kb.aud), Some(&kb.nonce)), &format!("a key-bound presentation to which a disclosure ({}) was added after the KB-JWT was made", attack["what"]))
+        }
+        "empty_expect" => {
+            // expected aud / nonce are compared literally: the empty string is a value, not "absent"
+            let e_aud = attack["expect_aud"].as_str().map(String::from);
+            let e_nonce = attack["expect_nonce"].as_str().map(String::from);
+            let text = match attack["kb"].as_str().unwrap_or("honest") {
+                "removed" => with_kb(None),
+                "empty" => with_kb(Some(String::new())),
+                "garbage" => with_kb(Some("a.b.c".into())),
+                _ => pres.clone(),
+            };
+            let honest = attack["kb"].as_str().unwrap_or("honest") == "honest";
+            let matches = e_aud.as_deref() == Some(kb.aud.as_str()) && e_nonce.as_deref() == Some(kb.nonce.as_str());
+            let o = verify(&text, e_aud.as_deref(), e_nonce.as_deref());
+            let what = format!("presentation (KB-JWT {} for aud {:?}, nonce {:?}) verified expecting aud {:?}, nonce {:?}", attack["kb"].as_str().unwrap_or("honest"), kb.aud, kb.nonce, e_aud, e_nonce);
+            if honest && matches {
+                expect_accept(o, &what)
+            } else {
+                expect_reject(o, &what)
+            }
         }
         "independent_kb" => {
             let Some(k) = make_kb(&holder_key, holder_alg, Some("kb+jwt"), &honest_claims) else { return Verdict::Trivial };
